@@ -6,16 +6,17 @@ import (
 )
 
 func st(sqls ...string) []*stmt { return lexAll(sqls) }
+func V(s string) Val           { return Val{s, s} }
 
 func TestCompareHolds(t *testing.T) {
 	va := defaultVariants[0]
 	q := func(v string) string { return "SELECT a FROM t WHERE (k == 'c') and (v == " + v + ")" }
-	f, n := compare(st(q(`'it\'s'`)), st(q(`'x'`)), st(q(`'y'`)), va, "it's", "x", "y")
+	f, n := compare(st(q(`'it\'s'`)), st(q(`'x'`)), st(q(`'y'`)), va, V("it's"), V("x"), V("y"))
 	if f != nil || n != 1 {
 		t.Fatalf("want held with 1 carrier, got %+v %d", f, n)
 	}
 	// SQL-standard doubling decodes to the same value
-	if f, _ := compare(st(q(`'it''s'`)), st(q(`'x'`)), st(q(`'y'`)), va, "it's", "x", "y"); f != nil {
+	if f, _ := compare(st(q(`'it''s'`)), st(q(`'x'`)), st(q(`'y'`)), va, V("it's"), V("x"), V("y")); f != nil {
 		t.Fatalf("doubling: %+v", f)
 	}
 }
@@ -36,18 +37,18 @@ func TestCompareFindings(t *testing.T) {
 		{"bad hex escape", q(`'\xZZ'`), "zz", "literal_undecodable"},
 	}
 	for _, c := range cases {
-		f, _ := compare(st(c.got), st(q(`'x'`)), st(q(`'y'`)), va, c.v, "x", "y")
+		f, _ := compare(st(c.got), st(q(`'x'`)), st(q(`'y'`)), va, V(c.v), V("x"), V("y"))
 		if f == nil || f.Reason != c.reason {
 			t.Errorf("%s: want %s, got %+v", c.name, c.reason, f)
 		}
 	}
 	// harmless values outside a literal
-	f, _ := compare(st(q(`x`)), st(q(`x`)), st(q(`y`)), va, "x", "x", "y")
+	f, _ := compare(st(q(`x`)), st(q(`x`)), st(q(`y`)), va, V("x"), V("x"), V("y"))
 	if f == nil || f.Reason != "benign_value_changes_structure" {
 		t.Errorf("raw interpolation of harmless values: %+v", f)
 	}
 	// query count
-	f, _ = compare(st(q(`'a'`), "SELECT 1"), st(q(`'x'`)), st(q(`'y'`)), va, "a", "x", "y")
+	f, _ = compare(st(q(`'a'`), "SELECT 1"), st(q(`'x'`)), st(q(`'y'`)), va, V("a"), V("x"), V("y"))
 	if f == nil || f.Reason != "query_count_changed" {
 		t.Errorf("query count: %+v", f)
 	}
@@ -65,7 +66,7 @@ func TestLikeTransform(t *testing.T) {
 		{`'%a\\_b%'`, `a_b`},
 	}
 	for _, c := range ok {
-		if f, _ := compare(st(q(c.lit)), st(q(`'%x%'`)), st(q(`'%y%'`)), va, c.v, "x", "y"); f != nil {
+		if f, _ := compare(st(q(c.lit)), st(q(`'%x%'`)), st(q(`'%y%'`)), va, V(c.v), V("x"), V("y")); f != nil {
 			t.Errorf("%s for %q should hold: %+v", c.lit, c.v, f)
 		}
 	}
@@ -76,7 +77,7 @@ func TestLikeTransform(t *testing.T) {
 		{`'%100%%'`, `100%`, "like_pattern_mismatch"},
 	}
 	for _, c := range bad {
-		f, _ := compare(st(q(c.lit)), st(q(`'%x%'`)), st(q(`'%y%'`)), va, c.v, "x", "y")
+		f, _ := compare(st(q(c.lit)), st(q(`'%x%'`)), st(q(`'%y%'`)), va, V(c.v), V("x"), V("y"))
 		if f == nil || f.Reason != "literal_value_mismatch" {
 			t.Errorf("%s for %q should fail: %+v", c.lit, c.v, f)
 			continue
@@ -102,7 +103,7 @@ func TestRegexpStandIn(t *testing.T) {
 			t.Errorf("regexpStandIn(%q) = %q, want %q", in, got, want)
 		}
 	}
-	if got, _ := regexpStripNames(`a(?P<n>b)(c)`); got != `(a(b)(c))` {
+	if got, _ := regexpStripNames(V(`a(?P<n>b)(c)`)); got != `(a(b)(c))` {
 		t.Errorf("regexpStripNames: %q", got)
 	}
 }
@@ -123,7 +124,35 @@ func TestQuoting(t *testing.T) {
 	if q, _ := identForm(reLogQLLabel, "", false).F("--"); !q.Weak {
 		t.Errorf("LogQL label names may not contain dashes: %+v", q)
 	}
-	if n := len(hostileSet(false)); n < 900 {
+	n := 0
+	for _, ph := range phases(false) {
+		n += len(ph.Strings)
+	}
+	if n < 900 {
 		t.Errorf("hostile set too small: %d", n)
+	}
+}
+
+func TestShapedValues(t *testing.T) {
+	// a planner that turns an anchored alternation into an IN list is fine when every alternative is a proper literal
+	va := regexValueVariants(Quoted{Value: "^(a|x')$", Hole: "x'"})[0]
+	q := func(list string) string { return "SELECT 1 WHERE val IN (" + list + ")" }
+	vx, vy := Val{"^(a|x)$", "x"}, Val{"^(a|y)$", "y"}
+	if f, n := compare(st(q(`'a','x\''`)), st(q(`'a','x'`)), st(q(`'a','y'`)), va, Val{"^(a|x')$", "x'"}, vx, vy); f != nil || n != 1 {
+		t.Errorf("escaped IN list should hold: %+v %d", f, n)
+	}
+	f, _ := compare(st(q(`'a','x''`)), st(q(`'a','x'`)), st(q(`'a','y'`)), va, Val{"^(a|x')$", "x'"}, vx, vy)
+	if f == nil || f.Reason != "structure_changed" {
+		t.Errorf("unescaped IN list: %+v", f)
+	}
+	f, _ = compare(st(q(`'a','x', 'smuggled', 'y'`)), st(q(`'a','x'`)), st(q(`'a','y'`)), va, Val{"^(a|x', 'smuggled', 'y)$", "x', 'smuggled', 'y"}, vx, vy)
+	if f == nil || f.Reason != "structure_changed" {
+		t.Errorf("smuggled alternatives: %+v", f)
+	}
+	if got := pipeShape("a|'b||", "x"); got != "x|x||" {
+		t.Errorf("pipeShape: %q", got)
+	}
+	if a := alternatives("^(?:a|b|c)$"); len(a) != 3 || a[2] != "c" {
+		t.Errorf("alternatives: %q", a)
 	}
 }
